@@ -59,7 +59,8 @@ def suite_echo(ctx):
             for (fname, off, ln) in c.echo_fields:
                 # the reply cut right before this echo, and inside it: an echo that is not there cannot repeat what was transmitted
                 for cut in sorted({off, off + ln - 1}):
-                    if cut >= len(c.good) or 'not compared' in fname or name == 'dtc':
+                    if cut >= len(c.good) or 'not compared' in fname or name == 'dtc' or 'named again' in fname:
+                        # (an identifier named twice in the request: the reply cut before its second record still holds every identifier requested)
                         continue            # (ReadDTCInformation: a reply cut at a record boundary is a complete reply with fewer records)
                     d = c.good[:cut]
                     got = declib.run_reply(c, d)
@@ -91,6 +92,10 @@ def suite_echo(ctx):
                     tag = got.split(' ')[0]
                     s.count('%s/%s:%s' % (name, fname, tag))
                     if 'not compared' in fname:
+                        continue
+                    if 'named again' in fname and ('dids=' in c.dline) and v in [int(x) for x in c.dline.split('dids=')[1].split(' ')[0].split(',')]:
+                        # the second record of an identifier named twice now carries another identifier of the same request: every identifier requested is
+                        # still answered and nothing else is (the set of identifiers is what the reply is compared with)
                         continue
                     if fname == 'record number' and v == 0 and c.config.get('tolerate_zero_padding') and not any(d[off:]):
                         # a zero record number followed by zeros only, with padding tolerated, *is* padding after the matching reply (C11), not a second echo
@@ -227,9 +232,110 @@ def suite_reentrant(ctx):
     return reentrant.suite_reentrant(ctx)
 
 
+def suite_after(ctx):
+    """echoes are compared with what was transmitted also when the transmitted bytes are not what a fresh call would send: (1) calls made after a payload-override
+    block was left by an exception, (2) helper objects whose attributes were assigned anew between two calls.  A reply is scripted from the frame actually sent."""
+    from .. import clientlib as cl
+    from udsoncan import DataFormatIdentifier, Filesize
+    s = Suite('after')
+    # (1) -------------------------------------------------------------------------------------------------------------------------------------
+    plain = [('ecu_reset(1)', lambda c: c.ecu_reset(1), bytes([0x11, 0x01]), lambda f: bytes([0x51, f[1] & 0x7F])),
+             ('start_routine(0x1234)', lambda c: c.start_routine(0x1234), bytes([0x31, 0x01, 0x12, 0x34]), lambda f: bytes([0x71, f[1] & 0x7F]) + f[2:4]),
+             ('transfer_data(5, aabb)', lambda c: c.transfer_data(5, b'\xaa\xbb'), bytes([0x36, 0x05, 0xAA, 0xBB]), lambda f: bytes([0x76, f[1]])),
+             ('change_session(3)', lambda c: c.change_session(3), bytes([0x10, 0x03]), lambda f: bytes([0x50, f[1] & 0x7F, 0, 0x32, 1, 0xF4]))]
+    mods = [('literal 1103', b'\x11\x03'), ('callable adding 2 to the last byte', lambda p: p[:-1] + bytes([(p[-1] + 2) & 0xFF])), ('callable p + 00', lambda p: p + b'\x00')]
+    exits = [('a negative response raised inside', [(1, b'\x7f\x3e\x22')], None), ('a timeout raised inside', [], None), ('an application exception', [(1, b'\x7e\x00')], KeyError('app')),
+             ('a normal end', [(1, b'\x7e\x00')], None)]
+    for mname, mod in mods:
+        for xname, arr, appexc in exits:
+            for pname, call, want_frame, answer in plain:
+                for sw in ((True, True, True), (False, False, False)):
+                    client, conn = cl.make_client(cl.Cfg(rt=64, p2=32, p2s=32, exc=(True, True, True)))
+                    try:
+                        with client.payload_override(mod):
+                            conn.script = list(arr)
+                            client.tester_present()
+                            if appexc is not None:
+                                raise appexc
+                    except Exception:  # noqa
+                        pass
+                    client.set_configs({'exception_on_negative_response': sw[0], 'exception_on_invalid_response': sw[1], 'exception_on_unexpected_response': sw[2]})
+                    sent = {}
+
+                    def responder(p, sent=sent, answer=answer):
+                        sent['f'] = bytes(p)
+                        return [(1, answer(bytes(p)))]          # the reply that answers the frame on the wire
+                    conn.responder = responder
+                    how, verdict, flags, payload, exc, r = cl.observe_outer(conn, lambda: call(client))
+                    conn.responder = None
+                    s.evaluations += 1
+                    label = '%s after a payload_override block (%s) left by %s; switches %s' % (pname, mname, xname, sw)
+                    s.distinct.add(label)
+                    s.count('left by ' + xname)
+                    f = sent.get('f')
+                    if f != want_frame:
+                        # what C01 / C15 are about; here: a reply that answers another request than the one the caller made must not be handed back as its answer
+                        if verdict == 'ok':
+                            s.fail({'site': pname, 'input': label, 'class': 'after a block', 'observed': 'sent %s, accepted %s' % (f.hex() if f else None, answer(f).hex() if f else None),
+                                    'required': 'the request of the call (%s) on the wire, and only its answer accepted' % want_frame.hex()})
+                    elif verdict != 'ok':
+                        s.fail({'site': pname, 'input': label, 'class': 'after a block', 'observed': '%s %s' % (how, verdict), 'required': 'the matching reply is returned'})
+    # (2) -------------------------------------------------------------------------------------------------------------------------------------
+    for c1, e1, c2, e2 in ((5, 2, 0, 2), (0, 0, 5, 2), (1, 1, 1, 2), (15, 15, 0, 0), (3, 0, 3, 0)):
+        for which in ('add_file', 'request_download'):
+            for echo_kind in ('the byte sent', 'the byte of the object as it is now', 'the byte of the object as it was first', 'another byte'):
+                client, conn = cl.make_client(cl.Cfg(rt=64, p2=32, p2s=32))
+                dfi = DataFormatIdentifier(compression=c1, encryption=e1)
+                first = (c1 << 4) | e1
+
+                def go():
+                    if which == 'add_file':
+                        return client.add_file('a.bin', dfi, Filesize(uncompressed=0x100, compressed=0x80, width=2))
+                    from udsoncan import MemoryLocation
+                    return client.request_download(MemoryLocation(0x1234, 0x10, 16, 8), dfi)
+                conn.script = []
+                cl.observe_outer(conn, go)                # first transfer: nobody answers, the object has been used once
+                dfi.compression, dfi.encryption = c2, e2
+                now = (c2 << 4) | e2
+                sent = {}
+
+                def responder(p, sent=sent):
+                    p = bytes(p)
+                    if which == 'add_file':
+                        pl = int.from_bytes(p[2:4], 'big')
+                        b = p[4 + pl]
+                    else:
+                        b = p[1]
+                    sent['b'] = b
+                    e = {'the byte sent': b, 'the byte of the object as it is now': now, 'the byte of the object as it was first': first, 'another byte': b ^ 0x11}[echo_kind]
+                    sent['e'] = e
+                    if which == 'add_file':
+                        return [(1, bytes([0x78, p[1], 0x02, 0x10, 0x00, e]))]
+                    return [(1, bytes([0x74, 0x20, 0x10, 0x00]))]          # (RequestDownload's reply echoes nothing: it is accepted whatever was sent)
+                conn.responder = responder
+                how, verdict, flags, payload, exc, r = cl.observe_outer(conn, go)
+                conn.responder = None
+                s.evaluations += 1
+                label = '%s with a DataFormatIdentifier used before as (%d, %d) and now holding (%d, %d); the reply echoes %s' % (which, c1, e1, c2, e2, echo_kind)
+                s.distinct.add(label)
+                s.count(which + ': ' + echo_kind)
+                if 'b' not in sent:
+                    s.fail({'site': which, 'input': label, 'class': 'reassigned helper object', 'observed': '%s %s, nothing sent' % (how, verdict), 'required': 'the request is transmitted'})
+                elif which == 'add_file':
+                    if verdict == 'ok' and sent['e'] != sent['b']:
+                        s.fail({'site': which, 'input': label, 'class': 'reassigned helper object', 'observed': 'sent data format 0x%02X, accepted the echo 0x%02X' % (sent['b'], sent['e']),
+                                'required': 'unexpected response: the echo differs from the byte transmitted'})
+                    if verdict != 'ok' and sent['e'] == sent['b']:
+                        s.fail({'site': which, 'input': label, 'class': 'reassigned helper object', 'observed': '%s %s for the echo 0x%02X of the byte sent' % (how, verdict, sent['e']),
+                                'required': 'the matching reply is returned'})
+    s.exhaustive = True
+    s.sample({'scenario': 'ecu_reset(1) after `with client.payload_override(b"\\x11\\x03"): tester_present()` raised NegativeResponseException', 'required': '11 01 on the wire, 51 01 accepted'})
+    return s
+
+
 def suite_user_code(ctx):
     """an application that extends the library with classes of its own (child process: harness/user_child.py vendor_service)"""
     return core.suite_user_code('vendor_service', 'send_request')
 
 
-SUITES = [suite_echo, suite_service_id, suite_callw, suite_reentrant, suite_unlock_echo, suite_user_code]
+SUITES = [suite_echo, suite_service_id, suite_callw, suite_reentrant, suite_unlock_echo, suite_after, suite_user_code]
